@@ -538,6 +538,17 @@ impl LocalKeyId {
     }
 }
 
+impl Drop for LocalValue {
+    fn drop(&mut self) {
+        // A value that is still alive when a failed execution is torn down is
+        // leaked: outside of the model its destructor could not perform a
+        // loom operation without panicking a second time.
+        if std::thread::panicking() {
+            std::mem::forget(self.0.take());
+        }
+    }
+}
+
 impl LocalValue {
     fn new<T: 'static>(value: T) -> Self {
         Self(Some(Box::new(value)))
